@@ -134,7 +134,7 @@ class SRRConfig(Config):
 
         mag = self.magnification
         mag = np.round(1.0 / mag if mag < 1.0 else mag).astype(int)
-        mag_axis = 0 if self.magnification > 1.0 else 1
+        mag_axis = 0 if self.magnification >= 1.0 else 1
 
         limit = (
             data[1].shape[mag_axis] * mag,
